@@ -146,7 +146,7 @@ impl Property for C01 {
     fn cases(&self, tier: Tier) -> usize {
         match tier {
             Tier::Quick => 150_000,
-            Tier::Thorough => 1_000_000,
+            Tier::Thorough => 6_000_000,
         }
     }
     fn strategy(&self, _tier: Tier) -> BoxedStrategy<TrajCase> {
